@@ -325,6 +325,41 @@ fn now() -> u128 {
         .as_millis()
 }
 
+// Content is addressed by the hex form of an entry's strongest hash
+// (`Integrity::to_hex`, which panics on anything it cannot decode), sharded by
+// its first two bytes. An integrity string read from disk is therefore only
+// usable if it parses, has at least one hash, and that hash's digest is
+// canonical padded base64 of at least two bytes.
+fn usable_integrity(integrity: &str) -> bool {
+    fn value(c: u8) -> Option<u8> {
+        match c {
+            b'A'..=b'Z' => Some(c - b'A'),
+            b'a'..=b'z' => Some(c - b'a' + 26),
+            b'0'..=b'9' => Some(c - b'0' + 52),
+            b'+' => Some(62),
+            b'/' => Some(63),
+            _ => None,
+        }
+    }
+    let sri: Integrity = match integrity.parse() {
+        Ok(sri) => sri,
+        Err(_) => return false,
+    };
+    let digest = match sri.hashes.first() {
+        Some(hash) => hash.digest.as_bytes(),
+        None => return false,
+    };
+    let pad = digest.iter().rev().take_while(|&&c| c == b'=').count();
+    if digest.len() % 4 != 0 || pad > 2 || digest.len() / 4 * 3 < pad + 2 {
+        return false;
+    }
+    let symbols = &digest[..digest.len() - pad];
+    // Bits of the last symbol that do not belong to a whole byte must be 0.
+    let spare = [0, 0b11, 0b1111][pad];
+    symbols.iter().all(|&c| value(c).is_some())
+        && matches!(symbols.last().and_then(|&c| value(c)), Some(v) if v & spare == 0)
+}
+
 fn bucket_entries(bucket: &Path) -> std::io::Result<Vec<SerializableMetadata>> {
     use std::io::{BufRead, BufReader};
     let file = match fs::File::open(bucket) {
@@ -348,7 +383,15 @@ fn bucket_entries(bucket: &Path) -> std::io::Result<Vec<SerializableMetadata>> {
             _ => continue,
         };
         if let Ok(serialized) = serde_json::from_str::<SerializableMetadata>(entry_str) {
-            vec.push(serialized);
+            // An entry whose integrity cannot address content is as good
+            // as a damaged one.
+            let usable = match &serialized.integrity {
+                Some(integrity) => usable_integrity(integrity),
+                None => true,
+            };
+            if usable {
+                vec.push(serialized);
+            }
         }
     }
     Ok(vec)
@@ -384,7 +427,15 @@ async fn bucket_entries_async(bucket: &Path) -> std::io::Result<Vec<Serializable
             _ => continue,
         };
         if let Ok(serialized) = serde_json::from_str::<SerializableMetadata>(entry_str) {
-            vec.push(serialized);
+            // An entry whose integrity cannot address content is as good
+            // as a damaged one.
+            let usable = match &serialized.integrity {
+                Some(integrity) => usable_integrity(integrity),
+                None => true,
+            };
+            if usable {
+                vec.push(serialized);
+            }
         }
     }
     Ok(vec)
